@@ -209,6 +209,28 @@ def gen_config(rnd, ctx, depth=None):
             ctx.count("style:listenable=False")
         classes.append(dict(prefix=[prefix], traits=ts, unlisten=unlisten))
         level_names.append([t[0] for t in ts[1:]])
+    # inheritance: a subclass that RE-DECLARES one inherited deferring attribute with another target.  The model
+    # sees the flattened table (class_traits of the subclass); the driver builds a real subclass with only the
+    # re-declared trait in its namespace (the metaclass merges the listener tables of the bases).
+    sub_of = {}
+    for lvl in range(1, depth + 1):
+        base = classes[lvl]
+        defs = [j for j, t in enumerate(base["traits"]) if t[1][0] == "Deleg"]
+        if not defs or rnd.random() > 0.4:
+            continue
+        j = rnd.choice(defs)
+        tn, spec = base["traits"][j]
+        cur = {"Same": tn, "Explicit": spec[2][1] if len(spec[2]) > 1 else tn,
+               "Prefix": (spec[2][1] if len(spec[2]) > 1 else []) + tn, "Class": base["prefix"] + tn}[spec[2][0]]
+        others = [t for t in level_names[lvl - 1] if t != cur]
+        if not others:
+            continue
+        ts2 = [list(t) for t in base["traits"]]
+        ts2[j] = [tn, ["Deleg", [PARENT], ["Explicit", rnd.choice(others)], rnd.random() < 0.5]]
+        unl = [u for u in base.get("unlisten", []) if u != tn]
+        sub_of[lvl] = len(classes)
+        classes.append(dict(prefix=list(base["prefix"]), traits=ts2, unlisten=unl, base=lvl, own=[tn]))
+        ctx.count("inheritance:redeclared-deferring-attribute")
     objs, by_level = [], []
     for lvl in range(depth + 1):
         ids = []
@@ -217,7 +239,18 @@ def gen_config(rnd, ctx, depth=None):
             if lvl > 0:
                 d.append([[PARENT], {"obj": rnd.choice(by_level[lvl - 1])}])
             ids.append(len(objs))
-            objs.append(dict(cls=lvl, dict=d))
+            ci = sub_of[lvl] if lvl in sub_of and rnd.random() < 0.6 else lvl
+            ob = dict(cls=ci, dict=d)
+            protos = [t[0] for t in classes[ci]["traits"] if t[1][0] == "Deleg" and not t[1][3]]
+            if lvl == depth and lvl > 0 and rnd.random() < 0.15:
+                ob["link_default"] = True      # delegate supplied by _parent_default; first operation precedes any read
+                ctx.count("construction:delegate-from-default-initialiser")
+            elif lvl > 0 and protos and rnd.random() < 0.2:
+                # a local value supplied as a constructor keyword (always valid: 0..50 suits Int, Range(0,50), Any)
+                ob["dict"] = d + [[rnd.choice(protos), rnd.randint(0, 50)]]
+                ob["ctor"] = True
+                ctx.count("construction:local-value-as-keyword")
+            objs.append(ob)
         by_level.append(ids)
     ctx.count("chain-depth:%d" % depth)
     return classes, objs, by_level
@@ -227,8 +260,18 @@ def gen_case(rnd, ctx, maxlen):
     classes, objs, by_level = gen_config(rnd, ctx)
     level_of = {o: l for l, ids in enumerate(by_level) for o in ids}
     case = dict(classes=classes, objs=objs, ops=[])
-    local = set()
-    for _ in range(rnd.randint(1, maxlen)):
+    local = {(i, tuple(e[0])) for i, ob in enumerate(objs) if ob.get("ctor") for e in ob["dict"][1:]}
+    lazy = [i for i, ob in enumerate(objs) if ob.get("link_default")]
+    for step_no in range(rnd.randint(1, maxlen)):
+        if step_no == 0 and lazy:
+            # change a target on the delegate before the link or a deferring attribute has ever been read
+            par = objs[lazy[0]]["dict"][0][1]["obj"]
+            tn, t = rnd.choice(classes[objs[par]["cls"]]["traits"][1:])
+            case["ops"].append(["Set", par, tn, rnd.randint(0, 50)])
+            ctx.count("op:target-change-before-first-read")
+            if t[0] == "Deleg" and not t[3]:
+                local.add((par, tuple(tn)))
+            continue
         o = rnd.randrange(len(objs))
         if rnd.random() < 0.6:          # prefer deferring objects
             o = rnd.choice([q for q in range(len(objs)) if level_of[q] > 0])
